@@ -104,11 +104,14 @@ def false_target(f, bb_call):
     return None
 
 
-def recover_arity_table(f, fl):
-    """opcode -> enforced argument count, from the chain `if aval == K {W = n}`; also returns W and its default."""
+def recover_arity_table(f, fl, prog=None):
+    """opcode -> enforced argument count, from the chain `if aval == K {W = n}`; also returns W and its default.
+    Two-stage forms are composed: `if aval == K { E = Variant }` (a fieldless enum classifying the opcode) followed by
+    `match E { Variant => W = n, .. }`."""
     table = {}
     wlocals = {}
     default = None
+    enum_stage = {}      # K -> (enum local, variant name)
     for bb, t in f.calls():
         if not is_bigint_eq(t):
             continue
@@ -125,8 +128,55 @@ def recover_arity_table(f, fl):
                     and f.local_ty(s["pl"]["l"]) in ("i32", "usize", "i64", "u32", "isize"):
                 table[ks[0]] = op_int(s["rv"]["op"])
                 wlocals[s["pl"]["l"]] = wlocals.get(s["pl"]["l"], 0) + 1
+            elif not s["pl"]["p"] and s["rv"]["k"] == "agg" and s["rv"].get("agg") == "adt" and not s["rv"]["ops"] \
+                    and s["rv"].get("variant") and ks[0] not in enum_stage:
+                enum_stage[ks[0]] = (s["pl"]["l"], s["rv"]["adt"], s["rv"]["variant"])
+    if not table and enum_stage and prog is not None:
+        adt_path = next(iter(enum_stage.values()))[1]
+        adt = prog.adts.get(adt_path)
+        vidx = {v["name"]: i for i, v in enumerate(adt["variants"])} if adt else {}
+        elocals = set()
+        for l, _, _ in enum_stage.values():
+            elocals |= fl.forward([l])
+        # switch on the discriminant of (a copy of) the classification
+        stage2 = {}
+        dflt2 = None
+        for bb, b in enumerate(f.blocks):
+            t = b["t"]
+            if t["k"] != "switch" or b.get("cleanup"):
+                continue
+            dl = op_local(t["discr"])
+            ok = False
+            for st in b["s"]:
+                if st["pl"]["l"] == dl and st["rv"]["k"] == "discr" and st["rv"]["pl"]["l"] in elocals:
+                    ok = True
+            if not ok:
+                continue
+            arms = [(v, tgt) for v, tgt in t["arms"]] + [("otherwise", t["otherwise"])]
+            found = {}
+            for v, tgt in arms:
+                tb = skip_trivial(f, tgt)
+                for s in f.blocks[tb]["s"]:
+                    if not s["pl"]["p"] and s["rv"]["k"] == "use" and op_int(s["rv"]["op"]) is not None \
+                            and f.local_ty(s["pl"]["l"]) in ("i32", "usize", "i64", "u32", "isize"):
+                        found[v] = (s["pl"]["l"], op_int(s["rv"]["op"]))
+            if len(found) >= 3 and len({w for w, _ in found.values()}) == 1:
+                stage2 = {v: n for v, (w, n) in found.items()}
+                wl = next(iter(found.values()))[0]
+                wlocals[wl] = len(found)
+                break
+        for K, (l, adt_p, vname) in enum_stage.items():
+            i = vidx.get(vname)
+            if i in stage2:
+                table[K] = stage2[i]
+            elif "otherwise" in stage2 and i is not None:
+                table[K] = stage2["otherwise"]
+        # the count of the classification's catch-all variant
+        mapped = {vidx.get(v) for _, _, v in enum_stage.values()}
+        rest_vals = {n for v, n in stage2.items() if v not in mapped}
+        default = next(iter(rest_vals)) if len(rest_vals) == 1 else None
     w = max(wlocals, key=wlocals.get) if wlocals else None
-    if w is not None:
+    if w is not None and default is None:
         vals = set()
         for _, _, s in f.stmts():
             if s["pl"]["l"] == w and not s["pl"]["p"] and s["rv"]["k"] == "use" and op_int(s["rv"]["op"]) is not None:
@@ -202,7 +252,7 @@ def run(tier="quick", replay=None):
     site = "%s:%s" % (f.file, f.line)
 
     # ---------------- R06.arity ------------------------------------------------------------------
-    table, w, default = recover_arity_table(f, fl)
+    table, w, default = recover_arity_table(f, fl, prog)
     cons, err = consensus_arity(cprog)
     if err:
         R.viol("R06.arity", "R06.arity|anchor-lost|consensus", "clvmr", "anchor lost: " + err)
@@ -424,9 +474,15 @@ def run(tier="quick", replay=None):
         gr = [(bb, t) for bb, t in a.calls() if callee_of(t) == GEN_REFS]
         rp = [(bb, t) for bb, t in a.calls() if (callee_of(t) or t.get("callee") or "").endswith("TRunProgram::run_program")]
         start = small_const(afl, op_local(gr[0][1]["args"][0])) if gr and op_local(gr[0][1]["args"][0]) is not None else None
-        args_param = 5
-        head_param = 4
-        refs_from_args = bool(gr) and op_local(gr[0][1]["args"][1]) is not None and args_param in direct_sources(afl, op_local(gr[0][1]["args"][1]))
+        # parameters by role, not by position: `args` is what the references are generated over, `head` the other s-expression
+        sexp_params = [i for i in range(1, a.argc + 1) if "SExp" in a.local_ty(i) and "Allocator" not in a.local_ty(i)]
+        args_param = None
+        if gr and op_local(gr[0][1]["args"][1]) is not None:
+            cand = [i for i in sexp_params if i in direct_sources(afl, op_local(gr[0][1]["args"][1]))]
+            args_param = cand[0] if len(cand) == 1 else None
+        others = [i for i in sexp_params if i != args_param]
+        head_param = others[0] if len(others) == 1 else None
+        refs_from_args = args_param is not None
         # the environment: Cons{_, Nil, args} (start 5) or args itself (start 2)
         wrapped = None
         for bb, i, s in a.stmts():
